@@ -48,6 +48,16 @@ in a forked copy of the untouched state the FIRST lookup uses that key; afterwar
 copy, deepcopy, the same key again and change_table (there and back) must all give that one object, whose
 field equals the int key.
 
+Part 6, module attributes of every table.  `core.define_elements(table, namespace)` is the documented way to make
+the atoms of a table attributes of a module (the package does it for the public table).  State = a namespace -
+fresh; filled by `from periodictable import *`; filled by define_elements of another private table; holding
+unrelated values (numbers, None, False, '', containers, a function, a module) under element symbols and names
+(I, K, lead, tin, D, T, ...) - + the history of define_elements events over the public and two private tables, in
+every order.  After every event every documented name (119 symbols, 119 names, D, T, deuterium, tritium; read
+from the table by number) must be, as attribute of the module, the very atom of the table defined last; [A],
+.ion[q], isotope ions, pickle and deepcopy reached through the attribute stay in that table; all four tables
+still resolve every number to the atom they had at the start; the returned sequence lists the names defined.
+
 Every lookup is an expression / statement string that is compiled once and evaluated on the real
 library, so the standalone snippet of a violation is literally the code that was run."""
 import gc, itertools, os, pickle, sys, traceback
@@ -56,7 +66,7 @@ from ..common import Acc, load_pt, rotate, MachineryError
 
 META = dict(
     level="model_checking", engine="E1",
-    technique="complete atom x route sweep + bounded-exhaustive lookup-order and table-construction histories on fresh tables",
+    technique="complete atom x route sweep + bounded-exhaustive lookup-order, table-construction and define_elements histories on fresh tables",
     rule=("sweep: one case per (table configuration, first-touch variant, Z, A, charge) - all 119 elements, "
           "all isotopes, all element ions, all isotope ions - each compared over >= 8 lookup routes, plus one "
           "case per invalid neighbour key (a key whose literal text no atom's fields can match), plus one case per "
@@ -78,17 +88,27 @@ META = dict(
           "copy of an interpreter holding the public and one private table; in every state every atom of a fixed set "
           "(all four kinds, D/T, neutron, last element, one ion created in that round) - or every atom - of every live "
           "table x lookup, pickle protocols 0..5, copy, deepcopy, in a container (2 ways), in a formula (2 ways) must be "
-          "the object returned before; non-trivial = the event constructed a table"),
+          "the object returned before; non-trivial = the event constructed a table; module attributes: one state per "
+          "(kind of namespace out of 4: fresh dict, after `from periodictable import *`, after define_elements of another "
+          "private table, unrelated values under 16 element symbols / names; history of define_elements(table, namespace) "
+          "events over the public and two private tables, every order, repetitions included), each on a forked copy; in "
+          "every state all 242 documented names as attributes of the module whose __dict__ the namespace is must be the "
+          "atoms of the table defined last (identity with table[Z], table[1][2], table[1][3]), then per atom el[A] "
+          "(lightest, heaviest), ion[q] (lowest, highest charge), one isotope ion, pickle and deepcopy of the atom and of "
+          "the last of these, all four tables re-read by number, and the returned names; non-trivial = at least one "
+          "documented name held an atom of another table or an unrelated value before the event"),
     bound=dict(
         quick="complete sweep of the public and one private table x 3 first-touch variants (incl. 7 container "
               "routes x up to 8 mutations per element, and every key of another type next to every valid key of "
               "every route - about 1.03 million keys per table sweep); all 490 first-access cases; all lookup "
               "histories of length <= 4 over the 14-event alphabet; all table-construction histories of length <= 2 "
-              "over 6 construction events (42), all atoms of all live tables after a first event that constructed a table",
+              "over 6 construction events (42), all atoms of all live tables after a first event that constructed a table; "
+              "all define_elements histories of length <= 3 over 3 tables x 4 kinds of namespace (160 states)",
         thorough="complete sweep of public, private and private-vs-private x 3 first-touch variants (incl. the "
                  "container mutations and the keys of other types); all 490 first-access cases; all "
                  "lookup histories of length <= 5 over the 14-event alphabet; all table-construction histories of "
-                 "length <= 3 (258), all atoms of all live tables after each of the first two events that constructed a table"),
+                 "length <= 3 (258), all atoms of all live tables after each of the first two events that constructed a table; "
+                 "all define_elements histories of length <= 4 over 3 tables x 4 kinds of namespace (484 states)"),
     assumptions=[
         "tables are mass- and density-initialised and no lazy loader runs (loaders that add isotopes are "
         "the E2 part of C08)",
@@ -107,7 +127,13 @@ META = dict(
         "renaming the table name inside a pickle of the other table's atom; it is judged only where the "
         "renamed bytes equal the pickle the library itself writes for the restored atom",
         "a formula-parse event that raises or yields other atoms is C01's subject and is not judged here",
-        "module attributes exist for the public table only",
+        "attributes of the PACKAGE exist for the public table only; a module gets the atoms of any table through "
+        "core.define_elements(table, namespace): afterwards every name the docstring promises ('each element ... both by "
+        "name and by symbol', plus D, T, deuterium, tritium as the package has them) is that table's atom whatever the "
+        "namespace held before (a name that is kept because it was taken is not 'defined'); names in the namespace that "
+        "no table knows are not judged; the returned value may be any iterable of strings: it must contain every "
+        "documented name, every listed name must exist in the namespace, and a name that newly holds an atom must be "
+        "listed (order and duplicates are not judged)",
         "a list (dict, set) that a lookup route hands out belongs to the caller: changing it in place must not "
         "change what the table iterates over or resolves (identity and 'visits isotopes by increasing A exactly "
         "once' are properties of the table, not of what a caller did to a returned value); immutable return "
@@ -127,7 +153,11 @@ META = dict(
                 "iteration:..., accepts-invalid:<route>:<class of key type>, wrong-object-for-key:<route>:<class>, "
                 "identity-/fields-/route-raises-after-first-access-by:<class>:<route>:<what>, "
                 "identity-after-table-construction:<class of the last construction that succeeded>:"
-                "<restore|lookup>), the exact atom / history is in the case"),
+                "<restore|lookup>, identity:module-attribute:define_elements:<what the name held before: name-was-free, "
+                "name-held-this-atom, name-held-atom-of-another-table, name-held-unrelated-value>, "
+                "module-attribute-missing-after-define_elements:<same>, identity:via-module-attribute:<route>, "
+                "identity:table-lookup-after-define_elements, define_elements-return:<what>), the exact atom / history is "
+                "in the case"),
 )
 
 PROTOS = tuple(range(pickle.HIGHEST_PROTOCOL + 1))
@@ -1916,9 +1946,249 @@ def _first_shard(args):
     return acc
 
 
+# ------------------------------------------------------------------------------------------------
+# part 6: the MODULE-ATTRIBUTE route of every table.  `core.define_elements(table, namespace)` is the documented
+# way to make the atoms of a table variables of a module ("Define external variables for each element in
+# namespace.  Elements are defined both by name and by symbol"; the package does it for the public table).  What a
+# module attribute gives afterwards depends on what the namespace held BEFORE and on which tables were defined
+# into it in which order.  State = a namespace (the __dict__ of a module M) + the history of define_elements
+# events; tables: P (public), A, B (private) as event operands, C (private) only to pre-fill a namespace.  After
+# every event every documented name (all symbols, all names, D, T, deuterium, tritium - read from the table by
+# NUMBER, not through define_elements) must be, as attribute of M, the very atom of the table just defined;
+# [A], .ion[q], pickle, deepcopy reached through the attribute stay in that table; every table still resolves its
+# numbers to the atoms it had at the start; the returned list names what was defined.
+NS_TABLES = (("P", "pt.elements"), ("A", "private('na0000')"), ("B", "private('nb0000')"), ("C", "private('nc0000')"))
+NS_EVENTS = ("P", "A", "B")
+NS_KINDS = (
+    ("fresh-dict", "NS = {}"),
+    ("after-star-import", "NS = {}\nexec('from periodictable import *', NS)"),
+    ("after-define_elements-of-another-table", "NS = {}\ncore.define_elements(TABLES['C'], NS)"),
+    # a module of the caller's own that happens to use element symbols and names for other things
+    ("unrelated-values-under-element-names",
+     "NS = dict(I=1j, K=273.15, lead='guitar', tin=['can'], D=None, T=0, deuterium=False, tritium='', H=(), iron={},\n"
+     "          Fe=len, n=3, neutron=types, He=object(), Og=0.0, oganesson=Ellipsis, x=1, my_table=TABLES['C'])"),
+)
+NS_KIND = dict(NS_KINDS)
+NS_SETUP = """import pickle, copy, types
+import periodictable as pt
+from periodictable import core, mass, density
+def private(name):
+    t = core.PeriodicTable(name); mass.init(t); density.init(t)
+    return t
+TABLES = {%(tables)s}
+ALIASES = (('D', 'deuterium', 1, 2), ('T', 'tritium', 1, 3))      # PeriodicTable docstrings
+def documented(tab):
+    # name -> atom for every name that define_elements is documented to define, read from the table by number
+    out = {}
+    for Z in range(%(minz)d, %(maxz)d + 1):
+        out[tab[Z].symbol] = out[tab[Z].name] = tab[Z]
+    for sym, name, Z, A in ALIASES:
+        out[sym] = out[name] = tab[Z][A]
+    return out
+REF = dict((label, documented(tab)) for label, tab in TABLES.items())
+ATOMS = (core.Element, core.Isotope, core.Ion)
+def observe(label, defined, before):
+    # [(route, name, what the route gave or the exception it raised, the atom of TABLES[label] it must be)]
+    tab, ref = TABLES[label], REF[label]
+    obs = []
+    def attempt(route, name, fn, want):
+        try:
+            obs.append((route, name, fn(), want))
+        except Exception as e:
+            obs.append((route, name, e, want))
+    for name in sorted(ref):
+        attempt('module-attribute', name, lambda: getattr(M, name), ref[name])
+    for l in sorted(TABLES):                    # every table still holds the atoms it had at the start
+        try:
+            now = documented(TABLES[l])
+        except Exception as e:
+            obs.append(('table-lookup', l, e, None))
+            continue
+        obs.extend(('table-lookup', l + ':' + name, now.get(name), want) for name, want in sorted(REF[l].items()))
+    for name, want in sorted(ref.items()):      # reach through every atom once: under its symbol
+        if getattr(M, name, None) is not want or name != want.symbol:
+            continue
+        Z = want.number
+        try:
+            if isinstance(want, core.Isotope):  # D, T
+                wants = [('ion[q]', 'getattr(M, name).ion[%%d]' %% q, tab[Z][want.isotope].ion[q]) for q in want.ions[:1]]
+            else:
+                As = sorted(set(want.isotopes[:1] + want.isotopes[-1:]))
+                qs = sorted(set(want.ions[:1] + want.ions[-1:]))
+                wants = [('el[A]', 'getattr(M, name)[%%d]' %% A, tab.isotope('%%d-%%s' %% (A, name))) for A in As]
+                wants += [('ion[q]', 'getattr(M, name).ion[%%d]' %% q, tab[Z].ion[q]) for q in qs]
+                wants += [('isotope.ion[q]', 'getattr(M, name)[%%d].ion[%%d]' %% (A, q), tab.isotope('%%d-%%s' %% (A, name)).ion[q])
+                          for A in As[-1:] for q in qs[:1]]
+        except Exception as e:
+            obs.append(('reference-lookup', name, e, None))
+            continue
+        for route, expr, w in wants:
+            attempt(route, name, lambda: eval(expr, globals(), dict(name=name)), w)
+        for route, expr, w in [('attribute', 'getattr(M, name)', want)] + wants[-1:]:
+            attempt('pickle', name, lambda: pickle.loads(pickle.dumps(eval(expr, globals(), dict(name=name)))), w)
+            attempt('deepcopy', name, lambda: copy.deepcopy([eval(expr, globals(), dict(name=name))])[0], w)
+    # the returned value lists the names that were defined
+    try:
+        listed = set(defined)
+        if not all(isinstance(k, str) for k in listed):
+            raise TypeError('not all names are strings')
+    except Exception as e:
+        obs.append(('returned-names', 'not-a-sequence-of-names', e, None))
+        return obs
+    for k in sorted(set(ref) - listed):
+        obs.append(('returned-names', 'documented-name-not-listed', k, None))
+    for k in sorted(listed - set(NS)):
+        obs.append(('returned-names', 'listed-name-not-defined', k, None))
+    for k in sorted(k for k, v in NS.items() if isinstance(k, str) and isinstance(v, ATOMS)
+                    and (k not in before or before[k] is not v) and k not in listed):
+        obs.append(('returned-names', 'defined-name-not-listed', k, None))
+    return obs
+"""
+NS_PREFILL = "%(prefill)s\nM = types.ModuleType('c08_namespace'); M.__dict__.update(NS); NS = M.__dict__\n"
+NS_EVENT_CODE = "before = dict(NS)\ndefined = core.define_elements(TABLES[%(label)r], NS)"
+NS_CHECK = """for route, name, got, want in observe(%(label)r, defined, before):
+    if isinstance(got, Exception):
+        print('RAISES', route, name, repr(got)); raise SystemExit(1)
+    if route == 'returned-names':
+        print('RETURNED NAMES:', name, repr(got)); raise SystemExit(1)
+    if got is not want:
+        print('DIFFERENT OBJECT:', route, 'of/through', repr(name), 'gave', repr(got), hex(id(got)), 'of table',
+              repr(getattr(got, 'table', None)), 'but the atom of table %(label)s is', repr(want), hex(id(want)),
+              '; before the call the name held', repr(before.get(name, 'nothing')))
+        raise SystemExit(1)
+"""
+
+
+def ns_setup():
+    return NS_SETUP % dict(tables=", ".join("%r: %s" % lt for lt in NS_TABLES), minz=MIN_Z, maxz=MAX_Z)
+
+
+def ns_snippet(kind, hist):
+    lines = [ns_setup(), NS_PREFILL % dict(prefill=NS_KIND[kind])]
+    for label in hist:
+        lines.append("# event: define table %s into the namespace" % label)
+        lines.append(NS_EVENT_CODE % dict(label=label))
+        lines.append(NS_CHECK % dict(label=label))
+    lines.append("print('every module attribute is the atom of the table defined last')")
+    return "\n".join(lines)
+
+
+def ns_state(kind):
+    """The public and three fresh private tables + a namespace of the given kind, no event yet."""
+    load_pt()
+    ns = {}
+    try:
+        _ex(ns_setup(), ns)
+        _ex(NS_PREFILL % dict(prefill=NS_KIND[kind]), ns)
+    except Exception as e:
+        raise MachineryError("cannot build the tables / the namespace %r: %s: %s" % (kind, type(e).__name__, e))
+    if len(ns["REF"]["P"]) < MAX_Z - MIN_Z + 1:
+        raise MachineryError("C08 namespaces: only %d documented names" % len(ns["REF"]["P"]))
+    return ns
+
+
+def _ns_prev(ns, name, want):
+    before = ns["before"]
+    if name not in before:
+        return "name-was-free"
+    if before[name] is want:
+        return "name-held-this-atom"
+    return "name-held-atom-of-another-table" if isinstance(before[name], ns["ATOMS"]) else "name-held-unrelated-value"
+
+
+def ns_event(ns, kind, hist, acc):
+    """Execute the last event of `hist` (define_elements of a table into the namespace) and judge every
+    observation; True = explore on."""
+    label = hist[-1]
+    case = dict(part="namespace", namespace=kind, history=list(hist))
+    snippet = ns_snippet(kind, hist)
+    acc.transitions += 1
+    try:
+        _ex(NS_EVENT_CODE % dict(label=label), ns)
+    except Exception as e:
+        acc.violation("route-raises:define_elements", case, "the names are defined", _exc(e), standalone=snippet)
+        return False
+    try:
+        obs = _ev("observe(%r, defined, before)" % label, ns)
+    except Exception as e:
+        raise MachineryError("C08 namespace observation failed for %r: %r" % (case, e))
+    acc.transitions += len(obs)
+    tclass = "public" if label == "P" else "private"
+    bad = set()
+    prevs = set()
+    for route, name, got, want in obs:
+        if route == "module-attribute":
+            prev = _ns_prev(ns, name, want)
+            prevs.add(prev)
+        if route == "returned-names":
+            sig = "define_elements-return:%s" % name
+            exp, obs_txt = "the returned sequence lists exactly the names it defined", _r(got)
+        elif isinstance(got, Exception):
+            sig = ("module-attribute-missing-after-define_elements:%s" % prev if route == "module-attribute"
+                   else "route-raises:via-module-attribute:%s" % route)
+            exp, obs_txt = "the atom", _exc(got)
+        elif got is not want:
+            sig = ("identity:module-attribute:define_elements:%s" % prev if route == "module-attribute" else
+                   "identity:table-lookup-after-define_elements" if route == "table-lookup" else
+                   "identity:via-module-attribute:%s" % route)
+            exp = "the atom of the %s table %s that was just defined, %s (id %#x)" % (tclass, label, _r(want), id(want))
+            obs_txt = "%s (id %#x, of table %s)" % (_r(got), id(got), _r(getattr(got, "table", None)))
+        else:
+            continue
+        if sig not in bad:
+            bad.add(sig)
+            acc.violation(sig, dict(case, route=route, name=name), exp, obs_txt, standalone=snippet)
+    if bad:
+        acc.outcome("namespace:%s:VIOLATION" % kind)
+        return False
+    acc.states += 1
+    overwrote = sorted(p for p in prevs if p in ("name-held-atom-of-another-table", "name-held-unrelated-value"))
+    if overwrote:
+        acc.nontrivial += 1           # at least one documented name held something else before the event
+    acc.outcome("namespace:%s:%s-table:%s:same-objects" % (kind, tclass, "+".join(sorted(prevs))))
+    return True
+
+
+def _ns_explore(ns, kind, hist, depth, labels, acc):
+    """Depth-first; every successor state is produced in a forked copy (namespace and tables are snapshotted)."""
+    for label in labels:
+        h2 = hist + (label,)
+        def child(h2=h2):
+            a = Acc()
+            if ns_event(ns, kind, h2, a) and len(h2) < depth:
+                _ns_explore(ns, kind, h2, depth, labels, a)
+            if len(h2) == depth and h2[:-1] == tuple(labels[:depth - 1]):
+                a.sample(dict(part="namespace", namespace=kind, history=list(h2)))
+            return a
+        acc.merge(_in_fork(child))
+
+
+def _ns_shard(args):
+    kind, depth, labels = args
+    gc.disable()
+    acc = Acc()
+    ns = ns_state(kind)
+    acc.states += 1                   # the root: the namespace as it was pre-filled
+    _ns_explore(ns, kind, (), depth, labels, acc)
+    acc.evaluations = acc.traces = acc.transitions
+    acc.count("namespace_histories", sum(len(labels) ** k for k in range(depth + 1)))
+    return acc
+
+
+def run_ns_path(kind, hist, acc):
+    """One define_elements history, sequentially, on fresh tables (used by replay, inside a fork)."""
+    ns = ns_state(kind)
+    for i in range(len(hist)):
+        if not ns_event(ns, kind, tuple(hist[:i + 1]), acc):
+            break
+    acc.evaluations = acc.traces = acc.transitions
+
+
 def _mixed_shard(args):
     if args[0] == "first":
         return _first_shard(args[1])
+    if args[0] == "namespace":
+        return _ns_shard(args[1])
     return _tab_shard(args[1]) if args[0] == "tables" else _seq_shard(args[1])
 
 
@@ -1964,9 +2234,14 @@ def run(ctx):
     mixed = [("tables", (l, tdepth, tfull, tlabels, i == 0)) for i, l in enumerate(tlabels)] + [("seq", a) for a in shards]
     # first access through a key of another type: one forked copy of the untouched state per (table, atom, key)
     mixed += [("first", (chunk,)) for chunk in common.chunks(rotate(first_items(), ctx.seed), 8)]
+    # module attributes: define_elements histories of the public and two private tables into four kinds of namespace
+    ndepth = 3 if ctx.quick else 4
+    nlabels = tuple(rotate(list(NS_EVENTS), ctx.seed))
+    mixed += [("namespace", (kind, ndepth, nlabels)) for kind, _ in NS_KINDS]
     for acc in common.pmap(_mixed_shard, mixed, jobs, "C08 sequences + tables"):
         ctx.acc.merge(acc)
     ctx.acc.info["table_construction_depth"] = tdepth
+    ctx.acc.info["namespace_history_depth"] = ndepth
     for k, what in (("restore_first_not_applicable", "sweep variant restore-first"),
                     ("unpickle_first_not_applicable", "sequence event unpickle-first")):
         if ctx.acc.info.get(k):
@@ -2020,6 +2295,14 @@ def _replay(acc, case):
     if case.get("part") == "loaders":
         from ..histmc import in_fork
         acc.merge(in_fork(lambda: _loader_path((tuple(case["history"]),))))
+        return
+    if case.get("part") == "namespace":
+        from ..histmc import in_fork
+        def go():
+            a = Acc()
+            run_ns_path(case["namespace"], tuple(case["history"]), a)
+            return a
+        acc.merge(in_fork(go))
         return
     if case.get("part") != "sweep":
         raise MachineryError("unknown case %r" % (case,))
